@@ -91,7 +91,13 @@ fn worker(rx: Receiver<Job>, tx: Sender<Res>) {
                 let _ = tx.send(interpret_one(&mut c, &s));
             }
             Job::Session(s) => {
-                let _ = tx.send(interpret_one(&mut session, &s));
+                let r = interpret_one(&mut session, &s);
+                if r.kind.contains("panic") {
+                    // a panic in the middle of a run leaves the VM of this session in an arbitrary state (the real
+                    // process would be gone); continuing with it would report follow-up panics that are not defects
+                    session = base.clone();
+                }
+                let _ = tx.send(r);
             }
             Job::ResetSession => {
                 session = base.clone();
@@ -199,8 +205,11 @@ fn expand(line: &str) -> Option<String> {
 /// assertions are shared by unrelated defects, so for them the key also carries the construct of the input that
 /// can cause it (a reference to the last result, a unit defined by a non-quantity); anything else is `other`.
 fn panic_key(r: &Res, input: &str) -> String {
-    let mentions_nonfinite = input.split(|c: char| !(c.is_alphanumeric() || c == '_')).any(|w| w == "NaN" || w == "inf");
-    if r.detail.contains("IncompatibleUnits") && r.detail.contains("unwrap") && mentions_nonfinite {
+    // `NaN`, `inf`, or a literal that overflows to infinity (`1e400`)
+    let mentions_nonfinite = input.split(|c: char| !(c.is_alphanumeric() || c == '_')).any(|w| {
+        w == "NaN" || w == "inf" || w.split_once('e').map(|(m, e)| !m.is_empty() && m.chars().all(|c| c.is_ascii_digit() || c == '_') && e.len() >= 3 && e.chars().all(|c| c.is_ascii_digit())).unwrap_or(false)
+    });
+    if r.detail.contains("IncompatibleUnits") && mentions_nonfinite {
         // the polymorphic `NaN`/`inf` literals (known finding C01-poly-nonfinite) reaching an `unwrap` of a unit
         // conversion in some FFI function or macro: one defect, many call sites
         return "panic:poly-nonfinite-conversion-unwrap".to_string();
